@@ -1,4 +1,6 @@
 import Zlink.Spec.Introspect
+import Zlink.Proofs.IntroRT
+import Zlink.Properties.C14
 /-! # C16 — derived introspection describes the Rust type it was derived from
 
 `Introspect` models the three derives and reads the std-type table **extracted from the current
@@ -120,6 +122,47 @@ theorem C16_enum_variants (prev : List Ty) (custom : Bool) (n : In) (docs : List
     (customTypeOf prev (.enm true n docs vs) = some (CT.enm n (vs.map fun v => (v.1, v.2.map docComment)) (docs.map docComment))) ∧
     (typeOf prev (.enm custom n docs vs) = some (if custom then .custom n else .enum (vs.map fun v => (v.1, v.2.map docComment)))) := by
   cases custom <;> simp [customTypeOf, typeOf, trimDocs_eq]
+
+/-! ### the assembled interface round-trips -/
+
+/-- **An interface assembled from derived descriptions renders to text that parses back to an equal
+    description** — for every module whose Rust names are legal Varlink names and whose doc lines are
+    lines, outside the two classes `declOK` excludes: a documented enum variant (the listed finding: the
+    multi-line enum form does not parse) and an `Option` directly around an `Option` (`??T` is not
+    Varlink). Composition of `assemble_ok` (what the derives produce is well-formed) with the round-trip
+    theorem of C14; re-rendering the parsed description reproduces the text, comments included. -/
+theorem C16_assembled_roundtrip (name : In) (ds : List TypeD) (a : Iface)
+    (hn : SpecIdl.ifaceNameOK name = true) (hds : ∀ d ∈ ds, declOK d = true) (h : assemble name ds = some a) :
+    parseInterface (renderIface a) = .ok a ∧
+    ∃ b, parseInterface (renderIface a) = .ok b ∧ renderIface b = renderIface a := by
+  obtain ⟨hok, hvi, hpl⟩ := assemble_ok name ds a hn hds h
+  have hvc : C14.noVariantComments a = true := by
+    unfold C14.noVariantComments
+    rw [List.all_eq_true] at hpl ⊢
+    intro t ht
+    have := hpl t ht
+    cases t <;> simpa [enmPlain] using this
+  exact ⟨C14.C14_parse_render a hok hvi hvc, C14.C14_render_fixpoint a hok hvi hvc⟩
+
+/-- the two exclusions are needed: a documented enum variant is outside `declOK` -/
+example : declOK (.enm true b!"Mode" [] [(b!"Idle", [b!" doc"]), (b!"Busy", [])]) = false := by decide +kernel
+/-- ... and so is `Option<Box<Option<u8>>>` -/
+example : rtOK (.app b!"Option" (.app b!"Box" (.app b!"Option" (.atom b!"u8")))) = false := by decide +kernel
+
+/-- a module that meets the hypotheses: a `CustomType` struct and enum, a `Type` struct, an error enum with
+    unit, struct and tuple variants, doc comments with surrounding blanks -/
+def exampleModule : List TypeD :=
+  [.strct true b!"Point" [b!" A point. "] [⟨b!"id", .atom b!"u32", [b!"  the id"]⟩,
+      ⟨b!"tags", .app b!"Option" (.app b!"Vec" (.atom b!"String")), []⟩],
+   .enm true b!"Mode" [b!" modes"] [(b!"Idle", []), (b!"Busy", [])],
+   .strct false b!"Leaf" [] [⟨b!"m", .app b!"HashMap<&str>" (.app b!"Box" (.ref 1)), []⟩],
+   .errs b!"E" [.unit b!"NotFound" [b!" nothing there"], .named b!"Invalid" [] [⟨b!"at", .ref 0, []⟩], .tuple b!"Other" [b!"x"] (.ref 2)]]
+example : (∀ d ∈ exampleModule, declOK d = true) ∧ SpecIdl.ifaceNameOK b!"org.ex.M1" = true ∧
+    (assemble b!"org.ex.M1" exampleModule).isSome = true := by
+  refine ⟨?_, by decide +kernel, by decide +kernel⟩
+  intro d hd
+  simp only [exampleModule, List.mem_cons, List.mem_nil_iff, or_false] at hd
+  rcases hd with h | h | h | h <;> subst h <;> decide +kernel
 
 /-! ### non-vacuity: a concrete declaration -/
 
